@@ -202,6 +202,12 @@ impl Container {
         let pack_reader = self
             .locator
             .locate(pack_info.uuid, &pack_info.pack_location)?;
+        let pack_reader = match pack_reader {
+            None => None,
+            // What has been located may be the pack itself or a container holding it
+            // (as the `.jbkc` written by `BasicCreator`). Identity is the uuid.
+            Some(r) => open_as_container_pack(r)?.get_pack_reader(&pack_info.uuid),
+        };
         match pack_reader {
             None => Ok(Some(MayMissPack::MISSING(pack_info.clone()))),
             Some(r) => Ok(Some(MayMissPack::FOUND(ContentPack::new(r)).transpose()?)),
